@@ -2,6 +2,7 @@
 import collections
 import copy
 import json
+import re
 
 import gen_factory
 import vlib
@@ -9,7 +10,9 @@ import vlib
 PID = "C14"
 PROBES = ["GET /r/a, authentication fails, conditions hold", "GET /r/a, authentication fails, conditions false",
           "GET /r/a, authentication succeeds, conditions hold", "GET /r/a, authentication succeeds, conditions false",
-          "POST /r/a (path of the rule, method not: backtracking decides)", "GET /other (no rule)"]
+          "POST /r/a (path of the rule, method not: backtracking decides)", "GET /other (no rule)",
+          "GET /r/a with X-Deny: 1 (the cel authorizers that listen refuse it), authentication succeeds, conditions hold",
+          "GET /r/a with X-Deny: 1, authentication succeeds, conditions false"]
 HARNESS_ENV = None   # set by run()/replay(): the harness keeps its scratch files under R.tmp
 
 
@@ -104,11 +107,17 @@ def describe(case, i, m):
             return nth + "a well-formed rule is rejected when its rule set is loaded", k, True
         for p, (x, y) in enumerate(zip(a.get("probes", []), b.get("probes", []))):
             if x != y:
-                fields = [f for f in ("rule", "calls", "fin", "hdr", "ret", "perr", "upstream") if x.get(f) != y.get(f)]
+                fields = [f for f in ("rule", "calls", "fin", "hdr", "ret", "perr", "upstream", "src") if x.get(f) != y.get(f)]
                 if "rule" in fields and p == 4:
                     return (nth + f"backtracking setting is not the rule's own / the default rule's / off: "
                                   f"{PROBES[p]} is answered by '{x.get('rule')}', the property demands "
                                   f"'{y.get('rule')}'", k, True)
+                if fields == ["src"]:
+                    return (nth + f"a stage of the executed pipeline does not consist of the mechanisms the rule "
+                                  f"(or, for a stage it does not define, the default rule) names: probe '{PROBES[p]}' "
+                                  f"ends with an error raised by the mechanism '{x.get('src')}' (Error.Source in the "
+                                  f"conditions of on_error), the property demands '{y.get('src')}' — the stage holds "
+                                  f"another catalogue entry than the one referenced", k, True)
                 own = ""
                 if any((s.get("cfg") or 0) >= gen_factory.TYPED for lst in ("execute", "on_error")
                        for s in (case["rules"][k].get(lst) or [])):
@@ -300,6 +309,10 @@ def run(R):
     # dyn-typed, not compiling, malformed shapes; any order in one factory
     n_expr = 120 if quick else 2000
     cases += [gen_factory.gen_expression_case(R.rng) for _ in range(n_expr)]
+    # one rule-level config over several catalogue entries of one type (default rule + rule, rules of one history,
+    # steps of one rule): every step must get a variant of the entry it names
+    n_twin = 120 if quick else 2500
+    cases += [gen_factory.gen_twin_case(R.rng) for _ in range(n_twin)]
     n_random = len(cases) - len(corpus)
     grids = gen_factory.small_scope(3 if quick else 5)
     cases += grids
@@ -338,6 +351,8 @@ def run(R):
     multi_key = disordered = overrides = probes_run = rules_total = 0
     typed = typed_refused = typed_histories = 0
     cond_classes = collections.Counter()
+    src_named = 0
+    src_refused = collections.Counter()
     ref_shapes = collections.Counter()
     type_names = set(gen_factory.ALL_TYPE_NAMES)
     samples, sampled = [], set()
@@ -391,7 +406,12 @@ def run(R):
             typed += rs.get("typed", 0)
             typed_refused += rs.get("typed_refused", 0)
             if v == "accepted":
-                probes_run += 6
+                probes_run += len(PROBES)
+                for pn, pr in enumerate(load.get("probes", [])):
+                    if pr.get("src"):
+                        src_named += 1
+                        if pn >= 6:
+                            src_refused[pr["src"]] += 1
                 for s in rs["own"]:
                     stages_own[s] += 1
                 for s in rs["inherited"]:
@@ -415,8 +435,9 @@ def run(R):
                 "/ malformed; lists spelled absent / null / [] / steps) + a history of 1..12 rule definitions, all "
                 "loaded by ONE real rule factory (configuration loader, mechanism catalogue with ids shared between "
                 "kinds, NewRuleFactory, rule set processor, repository; the mechanism factory is shared by all cases "
-                "with the same configuration), rule-level overrides incl. look-alike values of different type, six "
-                "probe requests per accepted rule; "
+                "with the same configuration), rule-level overrides incl. look-alike values of different type and "
+                "one value over several catalogue entries of a type, eight probe requests per accepted rule (two of "
+                "them refused by the cel authorizers that listen: the source of the error shows which entry ran); "
                 "non-trivial = the configuration loads and some rule of the history is accepted with at least one "
                 "own and one inherited stage, or is rejected and has at least one step; distinct by hash of the "
                 "case without the catalogue",
@@ -433,6 +454,10 @@ def run(R):
         "rules_with_multi_key_steps": multi_key, "rules_with_disordered_execute": disordered,
         "override_payloads": overrides, "probe_requests_executed": probes_run,
         "lookalike_random_cases": n_look, "expression_override_random_cases": n_expr,
+        "same_override_over_several_entries_random_cases": n_twin,
+        "same_override_over_several_entries_grid_cases": len(gen_factory.grid_twins()),
+        "probes_ending_with_an_error_that_names_its_source": src_named,
+        "refused_probes_by_source": dict(src_refused),
         "conditions_by_static_type_and_verdict": dict(cond_classes),
         "references_by_shape": dict(ref_shapes),
         "cel_expressions_typed_by_model_and_cel_go": len(cel_case["exprs"]),
@@ -459,7 +484,9 @@ def run(R):
                        "the table (boolean, boolean over dyn sub-terms, int / string / list / map, dyn-typed "
                        "attribute and index chains, syntax errors, undeclared names / no overload) as its `if`, also "
                        "inside the default rule; cel / remote authorizer x every expression and malformed shape as "
-                       "rule-level `expressions`" % (3 if quick else 5),
+                       "rule-level `expressions`; every type with several catalogue entries x every ordered pair of "
+                       "entries x every value: the same rule-level config over both, the first one used by the default "
+                       "rule, an earlier rule of the history or an earlier conditional step" % (3 if quick else 5),
     })
     R.assumptions += [
         "the catalogue, the override payloads and the condition literals used by the generator stand for all "
@@ -478,7 +505,8 @@ def run(R):
         "cellib.Library(), selection, indexing, == != && || ! ?:, the member / global functions in use); the text "
         "heimdall compiles is printed from the same tree by the generator; on every run the model's type is compared "
         "with cel-go's for every expression of the generator's table; every boolean expression generated holds "
-        "(conditions: holds unless the probe sends X-Skip: 1) for every probe request, CEL evaluation is not modelled",
+        "(conditions: holds unless the probe sends X-Skip: 1; expressions of a cel authorizer that read the header "
+        "X-Deny: hold unless the probe sends X-Deny: 1) for every probe request, CEL evaluation is not modelled",
         "execution semantics of the probe requests (Model/FactoryProbe.lean: fallback between authenticators, "
         "conditions, first applicable error handler, backtracking to a less specific rule) are validated by the "
         "correspondence run, not proved; they belong to properties C01/C02/C04",
@@ -489,9 +517,11 @@ def run(R):
     seen = set()
     for k, i, m in bad[:80]:
         what0, _, _ = describe(cases[k], i, m)
-        if (what0 or "")[:70] in seen:
+        # one report per clause: the position of the rule in its history is not part of the clause
+        key = re.sub(r"^rule \d+ of \d+ loaded by the factory: ", "", what0 or "")[:70]
+        if key in seen:
             continue
-        seen.add((what0 or "")[:70])
+        seen.add(key)
         what, payload, no_input = report(R, exe, cases, k, i, m)
         if what in [w for w, _, _ in R.violations]:
             continue
